@@ -150,31 +150,10 @@ def coverage(lines):
     return out
 
 
-def run(ctx):
-    quick = ctx.tier == "quick"
-    ctx.rule = ("correspondence: every size 2^1..2^maxlog (maxlog 11 quick / 14 thorough; sizes >= 2^10 take the two-call branch of "
-                "fft_in_place, smaller ones the doubling branch), three base fields, unit vectors (all for n<=32, boundary+random "
-                "positions above), all-ones, p-1, alternating, ramp, random and boundary-value vectors, offsets 1/GENERATOR/random/p-1, "
-                "blowups 1..128, explicit count/stride/offset triples for fft_in_place_raw, explicit (non-standard) twiddles, malformed "
-                "lengths (=> panic on both sides), 1..40 (thorough ..255) columns at segment widths 1,2,3,4,8 through the extracted "
-                "faithful index-level model AND (second run) through the extracted fft_rec/peval spec; falsifier: direct Horner "
-                "evaluation with u128 reference arithmetic at offset*g^i, interpolate(evaluate)=id, true degree; distinct = distinct case lines")
-    ctx.assumptions += [
-        "the hand-written Gallina model coq/Model/FFT.v is tied to the Rust source by the correspondence only (no translator)",
-        "E = B in the model (base-field vectors); extension-field vectors are covered by the falsifier (mul_base acts coordinate-wise)",
-        "indices inside fft_in_place/permute are modelled totally; under the asserts of the entry points they are in range (a panic of the real code would surface as a correspondence disagreement)",
-        "usize = 64 bits; lengths below 2^32 (`len as u32`)",
-        "only the serial code path (feature `concurrent` off) — the concurrent variants belong to another property",
-    ]
-    ctx.audit_sources()
-    ctx.coq_build("C09")
-    if not quick:
-        ctx.coqchk("C09")
-    drv = ctx.build_driver("c09")
+def exercise(ctx, hb, drv, quick, profile):
+    """correspondence (faithful model + spec model) and falsifier for the harness binary `hb`"""
     maxlog = 11 if quick else 14
-    profile = "debug" if quick else "release"
-    hb = ctx.build_harness("c09", profile)
-    jobs = 6 if quick else 10
+    jobs = 8 if quick else 12
     if hb and drv:
         rc, out, dt = vcheck.sh([hb, "corr", str(ctx.seed), str(maxlog), ctx.tier], timeout=900)
         lines = [l for l in out.split("\n") if " => " in l]
@@ -188,25 +167,79 @@ def run(ctx):
             ctx.ob(f"coverage:{op}:all-sizes-2^1..2^{maxlog}", need <= have, f"missing {sorted(need - have)}")
         rm = cov.get("rowmat", {})
         ctx.ob("coverage:rowmat:columns", rm.get("cases", 0) > 0 and "8" in rm.get("segment_widths_N", []), json.dumps(rm)[:300])
-        # faithful index-level model: everything whose work size is affordable on lists with unary indices
+        # faithful index-level model: everything whose work size is affordable on lists with unary indices;
+        # spec model (fft_rec / peval / rev_bits): every well-formed case with standard twiddles.
+        # The model arithmetic (inductive Z, unary nat) is slow: a work budget selects cases class by class
+        # (op, field, log2 size), cheap cases (small sizes, unit vectors) first, then round-robin over the classes.
         fmax = 1 << (12 if quick else 13)
-        faithful, spec = [], []
-        for l in lines:
-            c, r = l.split(" => ", 1)
-            op, fld, n, total, tw = case_info(c)
-            if total <= fmax or (not quick and op == "evalt" and fld == "f64" and total <= (1 << 14) and c.count(",0,") > n // 2):
-                faithful.append(l)
-            if op in SPEC_OPS and r.strip() != "panic" and tw in (None, "std") and n >= 2 and n & (n - 1) == 0:
-                spec.append("spec:" + l)
 
         def wt(c):
             op, fld, n, total, tw = case_info(c.replace("spec:", "", 1))
             dens = 1.0 - min(0.95, c.count(",0,") / max(1, n))       # sparse vectors are cheap
-            return int(total * max(1, math.log2(max(2, total))) * (3 if fld == "f128" else 1) * dens) + len(c) // 8
+            return int(total * max(1, math.log2(max(2, total))) * (8 if fld == "f128" else 1) * dens) + len(c) // 8
+
+        def select(cands, budget, cheap_thr):
+            """all cheap cases; per class (op, field, log2 work, blowup / segment width) the cheapest and the heaviest
+            (= dense) case regardless of the budget; then round-robin over the classes until the budget is used."""
+            classes, chosen, used = {}, [], 0
+            for l in cands:
+                c = l.split(" => ", 1)[0]
+                op, fld, n, total, tw = case_info(c.replace("spec:", "", 1))
+                w = wt(c)
+                if w <= cheap_thr or op == "permute_index" or (op.endswith("rowmat") and w <= 20000):
+                    chosen.append(l)
+                    used += w
+                    continue
+                t = c.split(" ")
+                extra = t[4] if op.endswith("eval_off") else (t[2] if op.endswith("rowmat") else "")
+                classes.setdefault((("spec:" if c.startswith("spec:") else "") + op, fld, total.bit_length(), extra), []).append((w, l))
+            for k in sorted(classes):
+                v = classes[k]
+                v.sort(key=lambda x: x[0])
+                picks = [v.pop(0)]
+                if v and not (quick and k[1] == "f128" and v[-1][0] > (150_000 if k[0].startswith("spec:") else 400_000)):
+                    picks.append(v.pop())
+                for w, l in picks:
+                    chosen.append(l)
+                    used += w
+            while classes and used < budget:
+                for k in sorted(classes):
+                    v = classes[k]
+                    if not v:
+                        del classes[k]
+                        continue
+                    w, l = v.pop(0)
+                    if used + w <= budget:
+                        chosen.append(l)
+                        used += w
+                if all(not v or v[0][0] + used > budget for v in classes.values()):
+                    break
+            return chosen, used
+
+        cand_f, cand_s = [], []
+        for l in lines:
+            c, r = l.split(" => ", 1)
+            op, fld, n, total, tw = case_info(c)
+            if total <= fmax:
+                cand_f.append(l)
+            if op in SPEC_OPS and r.strip() != "panic" and tw in (None, "std") and n >= 2 and n & (n - 1) == 0:
+                cand_s.append("spec:" + l)
+        budget = 5_000_000 if quick else 80_000_000
+        cheap = 1000 if quick else 30000
+        faithful, used_f = select(cand_f, budget, cheap)
+        spec, used_s = select(cand_s, budget // 2, cheap)
+        import time as _t
+        t0 = _t.time()
         par_correspondence(ctx, f"faithful-model:{profile}", faithful, drv, jobs=jobs, weight=wt)
+        t1 = _t.time()
         par_correspondence(ctx, f"spec-fft_rec:{profile}", spec, drv, jobs=jobs, weight=wt)
-        ctx.notes["correspondence_split"] = {"harness_lines": len(lines), "faithful_model_cases": len(faithful),
-                                             "faithful_model_max_work_size": fmax, "spec_cases": len(spec)}
+        ctx.notes["correspondence_wall_s"] = {"faithful": round(t1 - t0, 1), "spec": round(_t.time() - t1, 1), "jobs": jobs}
+        ctx.notes["coverage_faithful_model"] = coverage(faithful)
+        ctx.notes["coverage_spec_model"] = coverage([l.replace("spec:", "", 1) for l in spec])
+        ctx.notes["correspondence_split"] = {"harness_lines": len(lines), "faithful_model_candidates": len(cand_f),
+                                             "faithful_model_cases": len(faithful), "faithful_model_max_work_size": fmax,
+                                             "spec_candidates": len(cand_s), "spec_cases": len(spec),
+                                             "work_budget_units": budget, "work_used": [used_f, used_s]}
     if hb:
         fl = maxlog if not ctx.broken() else maxlog + (0 if quick else 1)
         rc, out, dt = vcheck.sh([hb, "falsify", str(ctx.seed), str(fl), ctx.tier], timeout=1500)
@@ -230,6 +263,32 @@ def run(ctx):
             ctx.evaluations += evals
         ctx.notes["falsifier"] = {"profile": profile, "maxlog": fl, "vectors_checked": evals, "failures": nfail, "wall_s": round(dt, 1),
                                   "oracle": "Horner with refmath u128 arithmetic at offset*g^i (extension fields: Horner with the crate's element ops); never an FFT"}
+
+
+def run(ctx):
+    quick = ctx.tier == "quick"
+    ctx.rule = ("correspondence: every size 2^1..2^maxlog (maxlog 11 quick / 14 thorough; sizes >= 2^10 take the two-call branch of "
+                "fft_in_place, smaller ones the doubling branch), three base fields, unit vectors (all for n<=32, boundary+random "
+                "positions above), all-ones, p-1, alternating, ramp, random and boundary-value vectors, offsets 1/GENERATOR/random/p-1, "
+                "blowups 1..128, explicit count/stride/offset triples for fft_in_place_raw, explicit (non-standard) twiddles, malformed "
+                "lengths (=> panic on both sides), 1..40 (thorough ..255) columns at segment widths 1,2,3,4,8 through the extracted "
+                "faithful index-level model AND (second run) through the extracted fft_rec/peval spec; falsifier: direct Horner "
+                "evaluation with u128 reference arithmetic at offset*g^i, interpolate(evaluate)=id, true degree; distinct = distinct case lines")
+    ctx.assumptions += [
+        "the hand-written Gallina model coq/Model/FFT.v is tied to the Rust source by the correspondence only (no translator)",
+        "E = B in the model (base-field vectors); extension-field vectors are covered by the falsifier (mul_base acts coordinate-wise)",
+        "indices inside fft_in_place/permute are modelled totally; under the asserts of the entry points they are in range (a panic of the real code would surface as a correspondence disagreement)",
+        "usize = 64 bits; lengths below 2^32 (`len as u32`)",
+        "only the serial code path (feature `concurrent` off) — the concurrent variants belong to another property",
+    ]
+    ctx.audit_sources()
+    ctx.coq_build("C09")
+    if not quick:
+        ctx.coqchk("C09")
+    drv = ctx.build_driver("c09")
+    profile = "debug" if quick else "release"
+    hb = ctx.build_harness("c09", profile)
+    exercise(ctx, hb, drv, quick, profile)
     ctx.notes["proof_stages"] = {
         "a": "theorem (every k): fft_rec = DFT by direct evaluation; coset evaluation; interpolation inverse at the spec level",
         "b": "checked every run: extracted faithful model and extracted fft_rec vs the crate (see correspondence)",
